@@ -450,6 +450,20 @@ def eval_cases(pid, requires, exprs, shard=150, jobs=16, timeout=900, opens=()):
     return results, errors
 
 
+def deliberate_exception(e):
+    """an exception the library (or sklearn on its behalf) raises ON PURPOSE - an 'explicit exception' in the sense of
+    the properties - as opposed to one that escapes from NumPy because shapes or types went wrong"""
+    import numpy as np
+    if isinstance(e, (AssertionError, NotImplementedError, np.linalg.LinAlgError, FloatingPointError)):
+        return True
+    if isinstance(e, ValueError):
+        msg = str(e)
+        accidental = ('could not be broadcast', 'shapes', 'mismatch', 'dimension', 'axis', 'cannot reshape', 'read-only',
+                      'setting an array element', 'too many values', 'not enough values', 'einstein', 'operand')
+        return not any(a in msg for a in accidental)
+    return False
+
+
 # --------------------------------------------------------------------------- cases / verdict
 class Case:
     """One generated case.
